@@ -137,6 +137,7 @@ func main() {
 	out := flag.String("out", "", "output directory")
 	n := flag.Int("n", 150, "number of cases (sessions)")
 	replay := flag.String("replay", "", "replay file")
+	flag.BoolVar(&enrichedLogin, "enriched-login", false, "also append the ENRICHED-format suffix to LOGIN records (known to be misread by go-libaudit)")
 	flag.Parse()
 	if *replay != "" {
 		os.Exit(doReplay(*replay))
@@ -145,7 +146,7 @@ func main() {
 	r := hutil.NewRand(seed ^ 0xC14C14)
 	sum := hutil.NewSummary("C14", seed, rule)
 	cases := &hutil.CaseFile{Dir: *out, Stem: "cases_render", PerFile: 25,
-		Header: "From Coq Require Import List ZArith.\nImport ListNotations.\nFrom AM Require Import Lib.Bytes Model.ToEvent Model.ToEventCheck.\nDefinition s := s2l.\nDefinition h := hx.\n",
+		Header: "From Coq Require Import String List ZArith.\nImport ListNotations.\nFrom AM Require Import Lib.Bytes Model.ToEvent Model.ToEventCheck.\nOpen Scope string_scope.\nDefinition s := s2l.\nDefinition h := hx.\n",
 		Footer: func(int) string {
 			return "Definition M := Eval vm_compute in mismatches cases.\nPrint M.\nDefinition B := Eval vm_compute in bad_events cases.\nPrint B.\nDefinition N := Eval vm_compute in n_events cases.\nPrint N.\n"
 		}}
